@@ -8,9 +8,9 @@ from harness.common import Ck, coq_Z_list, coq_list
 from translate import c08_sites
 
 MANIFEST = dict(
-    technique='Rocq proof (allocator refinement to a finite set, lifecycle NoDup invariants by induction over histories of several maps incl. copy/parse/collapse, nested Entity/Solid/Side world with bundled events incl. collapse_one, nav-node ID lifecycle in one and several maps, fixup indexes over whole histories) + ast site censuses with semantic normalisation + vm_compute correspondences',
-    text='Theorems in Props/C08.v: the IDMan scan terminates and returns a positive unused ID keeping the search_pos invariant; from every invariant state IDMan is observationally equal to a plain finite set that hands out the desired ID if positive and free, else the least free positive ID (search_pos is unobservable); for every history over any number of maps of construction with arbitrary desired IDs, copy() within and across maps, removal, re-adding, destruction, VMF.parse of documents with colliding/missing/non-positive IDs and collapse_one, the existing objects of one kind that belong to one map have pairwise distinct positive IDs, provided IDs are released only by destructors and every copy site passes the destination map down; the same for entities, their brushes and the faces of those as ONE world whose events are the bundles of constructor/copy/remove/destructor calls made for a top-level object and its parts (order and desired IDs of the nested calls are part of the model); nav-node IDs held by existing entities are distinct and positive after every history of key set/delete/copy/remove/re-add/destroy provided remove_ent does not release them and copies register their node ID, in one map and over several maps incl. cross-map copies, IDs reserved by Instance.fixup_key and collapse_one of node entities (copy all, then reserve and reassign every copied node ID); replaceNN indexes of one entity are distinct and positive after the constructor on any list and every sequence of set/setdefault/update, del/pop, clear, rebuild by Entity.copy and copy/deepcopy/pickle. The premises (release sites, ID stores, map argument of every constructor/copy call inside copy() methods and collapse_one, every write into Entity._keys and into the fixup index table, node-ID shapes, fixup acceptance test / deferral / start index, hint guard) are regenerated from the source on every run by a fail-closed translator that normalises names, test spellings, branch order, single-use locals, helper functions and loop forms, and are kernel-checked; IDMan, EntityFixup histories, the entity lifecycle, three-map histories of entities/brushes/faces/brush groups/visgroups (per kind and as bundled events), node-ID histories in one map and over three maps (with the real collapse_one) and VMF.parse results are compared with the models on random inputs (exact IDs); histories over all ID kinds including collapse_one are searched on real VMF objects.',
-    note='Trusted: Coq kernel + vm_compute, translate/c08_sites.py, c08_keys.py, c08_norm.py (which call sites matter: copy() methods of the five ID classes and collapse_one; other functions that build objects from a foreign map are not in the census), hand models SM/IdMan.v, SM/IdLife.v, SM/IdFixupHist.v, SM/IdWorld.v, SM/IdNest.v, SM/IdNode.v, SM/IdNodeMaps.v (tied by differential runs), CPython refcount/gc for __del__ timing. Brush groups and visgroups are independent single-kind models (each class uses the manager of its kind: census obligation); their IDs are never released (no destructor: leak, modelled as such). collapse_one is an event of the nested model (which brushes and entities it copies, in which order, is computed by the model and compared with the real function; hidden objects, visgroup handling and the keyvalue rewriting are searched, not modelled). Node IDs reserved by Instance.fixup_key are never released (a leak; modelled as the events NReserve / MReserve and compared). In the several-maps node model a nodeid key is a node ID for the entity classes whose FGD type says so (the correspondence sets it on info_node only). The deprecated Entity.keys dict (returned by reference) and a table handed to EntityFixup.__setstate__ bypass the censuses (listed as exposures). Maps opened with preserve_ids=True are exempt by definition.',
+    technique='Rocq proof (allocator refinement to a finite set, lifecycle NoDup invariants by induction over histories of several maps incl. copy/parse/collapse, nested Entity/Solid/Side world with bundled events incl. collapse_one and VMF.parse as a program read from the source, nav-node ID lifecycle in one and several maps, fixup indexes over whole histories) + ast site censuses with semantic normalisation + vm_compute correspondences',
+    text='Theorems in Props/C08.v: the IDMan scan terminates and returns a positive unused ID keeping the search_pos invariant; from every invariant state IDMan is observationally equal to a plain finite set that hands out the desired ID if positive and free, else the least free positive ID (search_pos is unobservable); for every history over any number of maps of construction with arbitrary desired IDs, copy() within and across maps, removal, re-adding, destruction, VMF.parse of documents with colliding/missing/non-positive IDs and collapse_one, the existing objects of one kind that belong to one map have pairwise distinct positive IDs, provided IDs are released only by destructors and every copy site passes the destination map down; the same for entities, their brushes and the faces of those as ONE world whose events are the bundles of constructor/copy/remove/destructor calls made for a top-level object and its parts (order and desired IDs of the nested calls are part of the model), VMF.parse of any document being one such event: the steps of VMF.parse that touch these IDs (placeholder worldspawn of the constructor, world block, re-binding of map.spawn = the moment the destructor of the placeholder runs under CPython reference counting, entity blocks) are read off its body on every run and interpreted by the model, and the theorem holds for every such program that contains no explicit release -- so parse-then-allocate histories are covered, and a parse that hands the ID of the placeholder back itself is refuted by a computed witness (entity IDs 1, 1); nav-node IDs held by existing entities are distinct and positive after every history of key set/delete/copy/remove/re-add/destroy provided remove_ent does not release them and copies register their node ID, in one map and over several maps incl. cross-map copies, IDs reserved by Instance.fixup_key and collapse_one of node entities (copy all, then reserve and reassign every copied node ID); replaceNN indexes of one entity are distinct and positive after the constructor on any list and every sequence of set/setdefault/update, del/pop, clear, rebuild by Entity.copy and copy/deepcopy/pickle. The premises (release sites, ID stores, map argument of every constructor/copy call inside copy() methods and collapse_one, every write into Entity._keys and into the fixup index table, node-ID shapes, fixup acceptance test / deferral / start index, hint guard, the program of VMF.parse, the map argument of every constructor call in helpers such as make_prism, the manager class chosen when preserve_ids is false) are regenerated from the source on every run by a fail-closed translator that normalises names, test spellings, branch order, single-use locals, helper functions and loop forms, and are kernel-checked; IDMan, EntityFixup histories, the entity lifecycle, three-map histories of entities/brushes/faces/brush groups/visgroups (per kind and as bundled events), node-ID histories in one map and over three maps (with the real collapse_one) and VMF.parse results are compared with the models on random inputs (exact IDs); histories over all ID kinds including collapse_one (visgroup False / True / a VisGroup), make_prism / make_hollow and maps that start as parsed documents (world id 1, small colliding IDs) are searched on real VMF objects, the worldspawn included in every entity scan, with a full gc.collect() at every step boundary.',
+    note='Trusted: Coq kernel + vm_compute, translate/c08_sites.py, c08_keys.py, c08_norm.py (which call sites matter: copy() methods of the five ID classes and collapse_one; other functions that build objects from a foreign map are not in the census), hand models SM/IdMan.v, SM/IdLife.v, SM/IdFixupHist.v, SM/IdWorld.v, SM/IdNest.v, SM/IdNode.v, SM/IdNodeMaps.v (tied by differential runs), CPython refcount/gc for __del__ timing (observed, not assumed, for the placeholder worldspawn of VMF.parse: weak references record at which constructor call it is gone; a full collection runs at every step boundary of the histories). Brush groups and visgroups are independent single-kind models (each class uses the manager of its kind: census obligation); their IDs are never released (no destructor: leak, modelled as such). collapse_one is an event of the nested model (which brushes and entities it copies, in which order, is computed by the model and compared with the real function; hidden objects, visgroup handling and the keyvalue rewriting are searched, not modelled). Node IDs reserved by Instance.fixup_key are never released (a leak; modelled as the events NReserve / MReserve and compared). In the several-maps node model a nodeid key is a node ID for the entity classes whose FGD type says so (the correspondence sets it on info_node only). The deprecated Entity.keys dict (returned by reference) and a table handed to EntityFixup.__setstate__ bypass the censuses (listed as exposures). Maps opened with preserve_ids=True are exempt by definition: they use NullIDMan, which hands desired IDs out without looking; C08 assumes NullIDMan is used for nothing else, and the census obligation maps_get_idman_unless_preserve_ids checks that VMF.__init__ gives all six managers the class IDMan when preserve_ids is false, that it defaults to False in VMF.__init__ and VMF.parse and that parse hands its parameter on. A stage in which the implementation loops or raises ends as a VIOLATION with the stage and seed as replay (alarm timer around every stage).',
 )
 
 IMPORTS = ['SV.SM.IdMan', 'SV.SM.IdManSpec', 'SV.SM.IdLife', 'SV.SM.IdFixupHist', 'SV.SM.IdWorld', 'SV.SM.IdNest', 'SV.SM.IdNode', 'SV.SM.IdNodeMaps', 'SV.Gen.IdSites_gen', 'SV.Props.C08',
